@@ -45,6 +45,12 @@ type Location struct {
 	//
 	// sys.System should be a good Provider.
 	Provider LocationProvider
+
+	// admission serializes the additions that are subject to
+	// Control.MaxFacts: the capacity test and the addition that it
+	// admits are one step.  Otherwise concurrent additions can all
+	// pass the test and together exceed the maximum.
+	admission sync.Mutex
 }
 
 // Updated returns the in-memory timestamp of the last update.
@@ -177,7 +183,7 @@ func NewLocation(ctx *Context, name string, state State, ctrl *Control) (*Locati
 
 	// ToDo: CacheExpires default duration.
 	// loc := Location{sync.RWMutex{}, name, false, nil, ctrl, state, ServiceStats{}, false}
-	loc := Location{sync.RWMutex{}, name, false, nil, nil, state, 0, ServiceStats{}, false, "", sync.RWMutex{}, nil}
+	loc := Location{sync.RWMutex{}, name, false, nil, nil, state, 0, ServiceStats{}, false, "", sync.RWMutex{}, nil, sync.Mutex{}}
 
 	return &loc, loc.init(ctx)
 }
@@ -342,6 +348,8 @@ func (loc *Location) AddRule(ctx *Context, id string, rule Map) (string, error) 
 	timer := NewTimer(ctx, "AddRule")
 	Inc(&loc.stats.TotalCalls, 1)
 	var err error
+	loc.admission.Lock()
+	defer loc.admission.Unlock()
 	if loc.AtCapacity(ctx) {
 		max := loc.Control().MaxFacts
 		err = fmt.Errorf("Location state capacity limit reached (%d)", max)
@@ -482,6 +490,8 @@ func (loc *Location) AddFact(ctx *Context, id string, fact Map) (string, error) 
 	if err := loc.CheckWrite(ctx); err != nil {
 		return "", err
 	}
+	loc.admission.Lock()
+	defer loc.admission.Unlock()
 	if loc.AtCapacity(ctx) {
 		max := loc.Control().MaxFacts
 		err := fmt.Errorf("Location state capacity limit reached (%d)", max)
